@@ -457,6 +457,7 @@ func main() {
 	cronrecFacts(&b) // C02 facts (cronrec.go)
 	jcstatusFacts(&b) // C15 facts (jcstatus.go)
 	taskfnFacts(&b)
+	validationFacts(&b) // C17 facts (validation_facts.go)
 	mutationFacts(&b) // C16 facts (mutation_facts.go)
 	f.Config.emit(&b)
 	writeOptionsFacts(&b, f.Options)
